@@ -26,9 +26,9 @@ type Caps struct {
 	OSC10          bool
 	OSC11          bool
 	OSC52          bool
-	SizeChars      bool // CSI 18 t
-	SizePixels     bool // CSI 14 t
-	CursorStyleRep bool // DECRQSS " q"
+	SizeChars      bool   // CSI 18 t
+	SizePixels     bool   // CSI 14 t
+	CursorStyleRep bool   // DECRQSS " q"
 	Name           string // XTVERSION name ("" = no reply)
 	NoCPR          bool
 	NoDA1          bool
@@ -81,21 +81,21 @@ type Term struct {
 	Pen         Style
 	top, bot    int // scroll region, inclusive, 0-based
 
-	CursorVisible bool
-	CursorStyle   int
-	Modes         map[int]bool
-	KeypadApp     bool
-	KittyStack    []int
-	KittyFlags    int
-	PointerShape  string
-	AppIDValue    string
-	Title         string
-	InsertMode    bool
-	SyncDepth     int
+	CursorVisible  bool
+	CursorStyle    int
+	Modes          map[int]bool
+	KeypadApp      bool
+	KittyStack     []int
+	KittyFlags     int
+	PointerShape   string
+	AppIDValue     string
+	Title          string
+	InsertMode     bool
+	SyncDepth      int
 	SyncUnbalanced int
-	Bells         int
-	Clipboard     string
-	Notifications []string
+	Bells          int
+	Clipboard      string
+	Notifications  []string
 
 	lastPrintValid bool
 	lastR, lastC   int
